@@ -1,5 +1,5 @@
-\* emission: streams of two records of <= 2 fields
-CONSTANTS MaxFields = 2  MaxRecords = 2  Alpha = "basic"  MaxLevel = 99
+\* emission: streams of two records of one field
+CONSTANTS MaxFields = 1  MaxRecords = 2  Alpha = "basic"  MaxLevel = 99
 INIT Init
 NEXT Next
 CONSTRAINT Bound
